@@ -5,8 +5,8 @@ PSBT): cosigners on their own seeds, wallet shapes as descriptors, inputs
 updated by their descriptor, `tx_builder.build_psbt`, and the Signer /
 Finalizer / Extractor / engine steps as plain helpers.
 
-    cosigners = make_cosigners(ch, 3)
-    wallet    = make_wallet(ch, "wsh-multi", cosigners)        # -> WalletSpec
+    cosigners = make_cosigners(ch, 3)                          # ECDSA ground / plain / mixed, drawn or told
+    wallet    = make_wallet(ch, "wsh-multi", cosigners)        # -> WalletSpec (descriptor, change, paths)
     cer       = fund_and_build(ch, [wallet], cosigners)        # -> Ceremony (unsigned psbt v0/v2, prevouts, ...)
     signed    = sign_all(cer)                                  # request_signatures, cosigner by cosigner
     final, tx = finalize_extract(cer, signed)                  # finalize(solver=cer.solver), extract_tx
@@ -31,11 +31,12 @@ from typing import Any, Sequence
 
 from btclib.bip32 import bip32
 from btclib.descriptors import Descriptor, miniscript_sizer, miniscript_solver, parse
+from btclib.ecc import dsa
 from btclib.fee import FeeRate
 from btclib.hashes import hash160, hash256, ripemd160, sha256
-from btclib.psbt.psbt import Psbt, extract_tx, finalize
+from btclib.psbt.psbt import Psbt, extract_tx, finalize, sign
 from btclib.psbt.psbt_in import PsbtIn
-from btclib.psbt_signer import SoftwareSigner, request_signatures
+from btclib.psbt_signer import SignerDecorator, SoftwareSigner, request_signatures
 from btclib.script import taproot
 from btclib.script.script import op_int
 from btclib.script.engine import verify_transaction
@@ -61,6 +62,29 @@ FINAL = 0xFFFFFFFF
 # ---------------------------------------------------------------------------
 # cosigners
 # ---------------------------------------------------------------------------
+class PlainEcdsaSigner(SignerDecorator):
+    """A SoftwareSigner whose ECDSA signatures are plain RFC6979, not ground for a low R.
+
+    The Signer role is still the library's (`psbt.sign` over this `KeyManager`, the key looked up and
+    checked by the wrapped signer); what differs is `grind=False`, which other signers (a device, BIP322's
+    own `sign`) use too: half of these signatures have the 33-byte r that makes them 72 bytes with their
+    sighash byte, the size `psbt_size.SIG_SIZE` says is the largest.
+    """
+
+    def sign_psbt(self, psbt: Psbt) -> Psbt:
+        return sign(psbt, self)[0]
+
+    def sign_ecdsa(self, pub_key: bytes, origin: Any, msg_hash: bytes) -> bytes | None:
+        prv_key = self.signer._prv_key(pub_key, origin)  # type: ignore[attr-defined]
+        return None if prv_key is None else dsa.sign_(msg_hash, prv_key, grind=False).serialize()
+
+    def sign_schnorr(self, pub_key: bytes, origin: Any, msg_hash: bytes, merkle_root: bytes) -> bytes | None:
+        return self.signer.sign_schnorr(pub_key, origin, msg_hash, merkle_root)  # type: ignore[attr-defined]
+
+    def sign_schnorr_script_path(self, pub_key: bytes, origin: Any, msg_hash: bytes, leaf_hash: bytes) -> bytes | None:
+        return self.signer.sign_schnorr_script_path(pub_key, origin, msg_hash, leaf_hash)  # type: ignore[attr-defined]
+
+
 @dataclass
 class Cosigner:
     """One key holder: a seed, the master key it makes, its account keys."""
@@ -69,6 +93,7 @@ class Cosigner:
     seed: bytes
     xprv: str
     fingerprint: bytes
+    grind: bool = True  # False: this holder's signer makes plain (not low-R) ECDSA signatures
     _accounts: dict[int, str] = field(default_factory=dict)
     _pub_keys: dict[tuple[int, int, int], bytes] = field(default_factory=dict)
 
@@ -76,9 +101,9 @@ class Cosigner:
     def name(self) -> str:
         return f"s{self.index}"
 
-    def signer(self) -> SoftwareSigner:
-        """A fresh SoftwareSigner on this seed (a restarted host builds a new one)."""
-        return SoftwareSigner(self.xprv)
+    def signer(self) -> Any:
+        """A fresh signer on this seed (a restarted host builds a new one): the library's `PsbtSigner` contract."""
+        return SoftwareSigner(self.xprv) if self.grind else PlainEcdsaSigner(SoftwareSigner(self.xprv))
 
     def account_path(self, acct: int) -> str:
         return f"m/48h/0h/{acct}h"
@@ -102,13 +127,16 @@ class Cosigner:
         return self._pub_keys[at]
 
 
-def make_cosigners(ch: Choices, n: int) -> list[Cosigner]:
+def make_cosigners(ch: Choices, n: int, ecdsa: str | None = None) -> list[Cosigner]:
+    """n holders. `ecdsa`: "ground" (low-R, SoftwareSigner's own), "plain" (none ground), "mixed" (per holder); drawn if None."""
+    mode = ecdsa or ch.pick(["ground", "mixed", "plain"], "cosigners.ecdsa")
     out: list[Cosigner] = []
     for i in range(n):
         # hashed with the position: distinct holders even on a shrunk (all-zero) choice list
         seed = hashlib.sha256(bytes([i]) + gk.seed(ch, "cosigner.seed")).digest()
         xprv = bip32.rootxprv_from_seed(seed)
-        out.append(Cosigner(i, seed, xprv, bip32.fingerprint(xprv)))
+        grind = mode == "ground" or (mode == "mixed" and ch.draw(2, "cosigner.plain-ecdsa") == 0)
+        out.append(Cosigner(i, seed, xprv, bip32.fingerprint(xprv), grind=grind))
     return out
 
 
@@ -132,7 +160,7 @@ class Path:
     """One way to spend a wallet's output, and what the transaction must carry for it."""
 
     label: str
-    groups: list[tuple[int, list[int]]]  # [(how many, of these cosigner indexes)]: every group must be met
+    groups: list[tuple[int, list[int]]]  # [(how many keys, the holder of each key)]: every group must be met
     leaf: int | None = None  # tr-tree: the leaf number, None = key path
     sequence: int | None = None  # older(): what the input's nSequence must be
     lock_time: int | None = None  # after(): what the transaction's nLockTime must reach
@@ -187,14 +215,17 @@ def make_wallet(ch: Choices, shape: str, cosigners: Sequence[Cosigner], acct: in
         kind = {"wpkh": "segwit0", "pkh": "legacy", "sh-wpkh": "segwit0", "tr": "taproot"}[shape]
         return _wallet(shape, kind, text, cos, paths=[Path("key", [(1, [i])])], internal=(i, acct) if shape == "tr" else None)
     if shape in ("multi", "sh-multi", "wsh-multi", "sh-wsh-multi"):
-        n = 1 + ch.draw(min(5, n_cos), "multi.n")
-        k = 1 + ch.draw(n, "multi.k")
-        members = ch.shuffled(range(n_cos), "multi.members")[:n]
+        # up to 15 keys (what a p2sh redeem script can hold), a cosigner holding several of them on
+        # accounts of its own: from 8 keys on the script is pushed with OP_PUSHDATA2
+        n = ch.weighted([(2, 3), (1, 2), (3, 3), (4, 1), (5, 2), (8, 2), (9, 1), (12, 1), (15, 2)], "multi.n")
+        k = ch.weighted([(1, 2), (min(2, n), 1), (n, 1), (1 + ch.draw(n, "multi.k"), 3)], "multi.k-class")
+        order = ch.shuffled(range(n_cos), "multi.members")
+        members = [(order[j % n_cos], acct + j // n_cos) for j in range(n)]
         fn = ch.pick(["multi", "sortedmulti"], "multi.fn")
-        inner = f"{fn}({k},{','.join(_key(cos, (i, acct)) for i in members)})"
+        inner = f"{fn}({k},{','.join(_key(cos, m) for m in members)})"
         text = {"multi": inner, "sh-multi": f"sh({inner})", "wsh-multi": f"wsh({inner})", "sh-wsh-multi": f"sh(wsh({inner}))"}[shape]
         kind = "legacy" if shape in ("multi", "sh-multi") else "segwit0"
-        return _wallet(shape, kind, text, cos, paths=[Path(f"{k}-of-{n}", [(k, members)])])
+        return _wallet(shape, kind, text, cos, paths=[Path(f"{k}-of-{n}", [(k, [m[0] for m in members])])])
     if shape == "tr-tree":
         return _tr_tree(ch, cos, acct)
     if shape == "wsh-ms":
@@ -443,7 +474,7 @@ def _spk(w: WalletSpec, index: int) -> Any:
     return w.descriptor.script_pub_key(index)
 
 
-def _fund_input(ch: Choices, w: WalletSpec, cosigners: Sequence[Cosigner], n_inputs: int, vin_i: int, n_pay: int) -> tuple[InputSpec, PsbtIn]:
+def _fund_input(ch: Choices, w: WalletSpec, vin_i: int, n_pay: int) -> tuple[InputSpec, PsbtIn]:
     index = ch.draw(6, "in.index")
     value = ch.pick([100_000, 10_000, 1_000_000, 2_100_000_000_000], "in.value") + ch.draw(50_000, "in.extra")
     vout = ch.draw(3, "in.vout")
@@ -452,9 +483,11 @@ def _fund_input(ch: Choices, w: WalletSpec, cosigners: Sequence[Cosigner], n_inp
     prev_tx = Tx(2, 0, [TxIn(OutPoint(hashlib.sha256(b"funding" + bytes([vin_i])).digest(), vin_i))], outs)
     path = w.paths[ch.draw(len(w.paths), "in.path")]
     signers: list[int] = []
-    for k, group in path.groups:
-        chosen = ch.shuffled(group, "in.signers")[: k + ch.draw(len(group) - k + 1, "in.spare")]
-        signers += [c for c in chosen if c not in signers]
+    for k, holders in path.groups:
+        # cosigners in a drawn order until their keys reach the threshold; the others are spares, now and then
+        for c in ch.shuffled(sorted(set(holders)), "in.signers"):
+            if c not in signers and (sum(holders.count(x) for x in signers) < k or ch.draw(3, "in.spare") == 0):
+                signers.append(c)
     psbt_in = PsbtIn(previous_tx_id=prev_tx.id, output_index=vout)
     if w.kind == "legacy":
         psbt_in.non_witness_utxo = prev_tx
@@ -497,15 +530,15 @@ def fund_and_build(
     psbt_ins: list[PsbtIn] = []
     for vin_i in range(n_inputs):
         w = wallets[ch.draw(len(wallets), "in.wallet")]
-        spec, psbt_in = _fund_input(ch, w, cosigners, n_inputs, vin_i, n_pay)
+        spec, psbt_in = _fund_input(ch, w, vin_i, n_pay)
         specs.append(spec)
         psbt_ins.append(psbt_in)
     total_in = sum(s.value for s in specs)
     lock_time = max([s.path.lock_time or 0 for s in specs])
     if not lock_time:
         lock_time = ch.pick([0, 0, 850_000, 1], "lock_time")
-    # capped so that a quarter of what comes in always covers it (<= 3000 vbytes for four inputs of any shape)
-    rate = FeeRate(sats_per_kvbyte=min(total_in // 12, ch.pick([1000, 0, 1, 253, 999, 1001, 1500, 12_345, 100_000], "fee.rate") + ch.draw(2, "fee.odd")))
+    # capped so that a quarter of what comes in always covers it (< 6000 vbytes for four inputs of any shape)
+    rate = FeeRate(sats_per_kvbyte=min(total_in // 24, ch.pick([1000, 0, 1, 253, 999, 1001, 1500, 12_345, 100_000], "fee.rate") + ch.draw(2, "fee.odd")))
     # payments: to scripts of every standard kind; together at most ~3/4 of what comes in
     budget = total_in * (1 + ch.draw(3, "pay.share")) // 4
     payments = []
